@@ -168,7 +168,9 @@ def _run_spec(spec, monitors, ident):
 def family_run(ctx, monitors, n_cases, profiles=PROFILES, procs=14, corpus=None, label="trav", seed_offset=0, n_parsed=0,
                n_lazyparsed=0):
     scratch = ctx.mkscratch()
-    jobs = [(ctx.seed + seed_offset, i, profiles[i % len(profiles)], monitors, scratch) for i in range(n_cases)]
+    # every 16th case: a timeout budget above 10 000 s with one legitimately long test the other workers wait for ("longwait")
+    jobs = [(ctx.seed + seed_offset, i, "longwait" if i % 16 == 15 else profiles[i % len(profiles)], monitors, scratch)
+            for i in range(n_cases)]
     results = []
     # corpus of minimised past cases first
     if corpus and os.path.isdir(corpus):
